@@ -164,7 +164,7 @@ variable {f : DddmpFile} {i2p levels : List (DddmpTok × Int)} {roots : List Int
 /-- the support variable listed at position `j`, whose level `permids[j]` is one of the
 header's levels: it is the variable the header puts on that level, and `dddmpSuppName` names it -/
 theorem suppVar_of_level (h : dddmpHeader f = .ok (i2p, levels, roots)) (hH : DddmpHeaderOK f)
-    (hnamed : f.named = true) (hv3 : f.varinfo ≠ some 3) {permids : List Int}
+    (hv3 : f.varinfo ≠ some 3) {permids : List Int}
     (hp : f.permids = some permids) {j : Nat} {k : Int} (hjk : permids[j]? = some k)
     (hkl : k ∈ levels.map (·.2)) :
     ∃ var, (var, k) ∈ levels ∧ (levels.map (·.2)).Nodup ∧ dddmpSuppName f j = some var := by
@@ -182,7 +182,27 @@ theorem suppVar_of_level (h : dddmpHeader f = .ok (i2p, levels, roots)) (hH : Dd
     simp [dddmpSuppName, ho, hp, hjk, hov]
   | none =>
     cases hs : f.suppvarnames with
-    | none => simp [DddmpFile.named, ho, hs] at hnamed
+    | none =>
+      -- no names: the loader's table is that of the names `permids[0], permids[1], …`
+      have hpnd : permids.Nodup := by have := hH.permids hv3; rw [hp] at this; exact this
+      have hond : (permids.map DddmpTok.num).Nodup :=
+        nodup_map_of_inj_on _ _ (fun a _ b _ h => by cases h; rfl) hpnd
+      have hL := levels_nameless_eq h ho hs hp
+      rw [hL, enumDict_eq hond] at hkl
+      obtain ⟨q, hq, rfl⟩ := List.mem_map.mp hkl
+      obtain ⟨p, hp', rfl⟩ := List.mem_map.mp hq
+      have hov : (permids.map DddmpTok.num)[p.2]? = some p.1 := List.mem_zipIdx_iff_getElem?.mp hp'
+      refine ⟨p.1, ?_, ?_, ?_⟩
+      · rw [hL]; exact enumDict_mem hond hov
+      · rw [hL]; exact enumDict_vals hond
+      · simp only at hjk
+        rw [List.getElem?_map] at hov
+        cases hpk : permids[p.2]? with
+        | none => rw [hpk] at hov; cases hov
+        | some v =>
+          rw [hpk] at hov
+          simp only [Option.map_some, Option.some.injEq] at hov
+          simp [dddmpSuppName, ho, hs, hp, hjk, hpk, hov]
     | some sv =>
       obtain ⟨ids, permids', _, hi, hp', _, _, _, _⟩ := dddmpHeader_inv h
       rw [hp] at hp'
@@ -202,7 +222,7 @@ theorem suppVar_of_level (h : dddmpHeader f = .ok (i2p, levels, roots)) (hH : Dd
 of the header's levels) the loader's two tables and the DDDMP reading rule name the same
 variable -/
 theorem dddmpVarOf_eq_nameOf (h : dddmpHeader f = .ok (i2p, levels, roots)) (hH : DddmpHeaderOK f)
-    (hnamed : f.named = true) {info : DddmpTok} {k : Int} (hne : info ≠ .str "T")
+    {info : DddmpTok} {k : Int} (hne : info ≠ .str "T")
     (hk : dictGet i2p info = some k) (hkl : k ∈ levels.map (·.2)) :
     ∃ var, dddmpVarOf i2p levels info = some var ∧ dddmpNameOf f info = some var := by
   obtain ⟨ids, permids, _, hi, hp, _, hI, hL, _⟩ := dddmpHeader_inv h
@@ -232,7 +252,7 @@ theorem dddmpVarOf_eq_nameOf (h : dddmpHeader f = .ok (i2p, levels, roots)) (hH 
     obtain ⟨hji, hjk⟩ := List.getElem?_zip_eq_some.mp hj
     simp only [Prod.mk.injEq] at hpe
     obtain ⟨rfl, rfl⟩ := hpe
-    obtain ⟨var, hm, hvals, hsn⟩ := suppVar_of_level h hH hnamed hv3 hp hjk hkl
+    obtain ⟨var, hm, hvals, hsn⟩ := suppVar_of_level h hH hv3 hp hjk hkl
     refine ⟨var, dddmpVarOf_of_mem hvals hk hm, ?_⟩
     simp [dddmpNameOf, hv, hi, posOf_of_getElem? hnd hji, hsn]
   · -- `.varinfo 1`
@@ -251,7 +271,7 @@ theorem dddmpVarOf_eq_nameOf (h : dddmpHeader f = .ok (i2p, levels, roots)) (hH 
     simp only [Prod.mk.injEq] at hpe
     obtain ⟨rfl, rfl⟩ := hpe
     obtain ⟨j, hjk⟩ := List.mem_iff_getElem?.mp hk'
-    obtain ⟨var, hm, hvals, hsn⟩ := suppVar_of_level h hH hnamed hv3 hp hjk hkl
+    obtain ⟨var, hm, hvals, hsn⟩ := suppVar_of_level h hH hv3 hp hjk hkl
     refine ⟨var, dddmpVarOf_of_mem hvals hk hm, ?_⟩
     simp [dddmpNameOf, hv, hp, posOf_of_getElem? hpnd hjk, hsn]
   · cases ht
@@ -279,10 +299,10 @@ end Reading
 
 /-! ### the composed statement -/
 
-/-- on a well-formed file with names and distinct header entries, the semantics the load
+/-- on a well-formed file with distinct header entries (with or without names), the semantics the load
 theorems are stated with IS the evaluation of the node list by the DDDMP reading rule -/
 theorem evalFile_eq_evalFormat {f : DddmpFile} (hf : f.WF) (hH : DddmpHeaderOK f)
-    (hnamed : f.named = true) (α : String → Bool) (x : Int) :
+    (α : String → Bool) (x : Int) :
     evalFile f α x = evalFormat f α x := by
   obtain ⟨i2p, levels, roots, nv, hh, hnv, hw, _⟩ := hf
   have hev : evalFile f α x = evalFileF i2p levels f.nodes α (nv + 2).toNat x := by
@@ -296,7 +316,7 @@ theorem evalFile_eq_evalFormat {f : DddmpFile} (hf : f.WF) (hH : DddmpHeaderOK f
   rcases hw.line n hn with ht | hnode
   · exact absurd ht.2.1 hne
   · obtain ⟨_, _, _, _, k, hk, hkl, _, _⟩ := hnode
-    obtain ⟨var, h1, h2⟩ := dddmpVarOf_eq_nameOf hh hH hnamed hne hk hkl
+    obtain ⟨var, h1, h2⟩ := dddmpVarOf_eq_nameOf hh hH hne hk hkl
     rw [h1, h2]
 
 /-- `ev` reads the node list of `f` by the rule "the non-terminal line labelled `info` is a
@@ -314,8 +334,7 @@ structure DddmpShannon (f : DddmpFile) (lineVar : DddmpTok → DddmpTok → Prop
 
 /-- `evalFile` obeys the Shannon rule of the format with the reading `dddmpNameOf`
 (`evalFileF_node` composed with the mode lemmas `dddmpVarOf_*`) -/
-theorem evalFile_shannon {f : DddmpFile} (hf : f.WF) (hH : DddmpHeaderOK f)
-    (hnamed : f.named = true) :
+theorem evalFile_shannon {f : DddmpFile} (hf : f.WF) (hH : DddmpHeaderOK f) :
     DddmpShannon f (fun info var => dddmpNameOf f info = some var) (evalFile f) := by
   obtain ⟨i2p, levels, roots, nv, hh, hnv, hw, _⟩ := hf
   have hT := dddmpHeader_T hh hnv
@@ -327,7 +346,7 @@ theorem evalFile_shannon {f : DddmpFile} (hf : f.WF) (hH : DddmpHeaderOK f)
     rcases hw.line n hn with ht | hnode
     · exact absurd ht hnt
     · obtain ⟨_, hne, _, _, k, hk, hkl, _, _⟩ := id hnode
-      obtain ⟨var, h1, h2⟩ := dddmpVarOf_eq_nameOf hh hH hnamed hne hk hkl
+      obtain ⟨var, h1, h2⟩ := dddmpVarOf_eq_nameOf hh hH hne hk hkl
       refine ⟨k, var, hnode, hk, ?_, h2⟩
       -- the variable `dddmpVarOf` finds is on level `k`
       simp only [dddmpVarOf, hk] at h1
@@ -356,12 +375,11 @@ theorem evalFile_shannon {f : DddmpFile} (hf : f.WF) (hH : DddmpHeaderOK f)
     exact hw.evalFileF_node hT α hn hnode hk hm
 
 /-- the same for `evalFormat` -/
-theorem evalFormat_shannon {f : DddmpFile} (hf : f.WF) (hH : DddmpHeaderOK f)
-    (hnamed : f.named = true) :
+theorem evalFormat_shannon {f : DddmpFile} (hf : f.WF) (hH : DddmpHeaderOK f) :
     DddmpShannon f (fun info var => dddmpNameOf f info = some var) (evalFormat f) := by
-  have h := evalFile_shannon hf hH hnamed
+  have h := evalFile_shannon hf hH
   have e : evalFile f = evalFormat f := by
-    funext α x; exact evalFile_eq_evalFormat hf hH hnamed α x
+    funext α x; exact evalFile_eq_evalFormat hf hH α x
   rw [← e]; exact h
 
 theorem DddmpShannon.reading {f : DddmpFile} {R R' : DddmpTok → DddmpTok → Prop}
@@ -494,6 +512,78 @@ theorem dddmpNameOf_varinfo1_supp (hv : f.varinfo = some 1) {permids : List Int}
         exact ⟨j, i, rfl, posOf_some hpo, h⟩
   · rintro ⟨j, k, rfl, hjk, hjv⟩
     simp [dddmpNameOf, hv, hp, posOf_of_getElem? hnd hjk, dddmpSuppName, ho, hs, hjv]
+
+/-- `.varinfo 0` without any names: the line labelled `ids[j]` is a node of the variable the
+loader calls `permids[permids[j]]` (a Python `int`) -/
+theorem dddmpNameOf_varinfo0_nameless (hv : f.varinfo = some 0) {ids permids : List Int}
+    (hi : f.ids = some ids) (hp : f.permids = some permids) (hnd : ids.Nodup)
+    (ho : f.orderedvarnames = none) (hs : f.suppvarnames = none) (info var : DddmpTok) :
+    dddmpNameOf f info = some var ↔
+      ∃ (j : Nat) (i : Int) (k : Nat) (v : Int), info = .num i ∧ ids[j]? = some i ∧
+        permids[j]? = some (k : Int) ∧ permids[k]? = some v ∧ var = .num v := by
+  constructor
+  · intro h
+    cases info with
+    | str s => simp [dddmpNameOf, hv] at h
+    | num i =>
+      simp only [dddmpNameOf, hv, hi, Option.getD_some] at h
+      cases hpo : posOf i ids with
+      | none => rw [hpo] at h; cases h
+      | some j =>
+        rw [hpo] at h
+        simp only [Option.bind_some, dddmpSuppName, ho, hs, hp, Option.getD_some] at h
+        cases hjk : permids[j]? with
+        | none => rw [hjk] at h; cases h
+        | some k =>
+          rw [hjk] at h
+          simp only at h
+          split at h
+          · next hk0 =>
+            cases hkv : permids[k.toNat]? with
+            | none => rw [hkv] at h; cases h
+            | some v =>
+              rw [hkv] at h
+              simp only [Option.map_some, Option.some.injEq] at h
+              refine ⟨j, i, k.toNat, v, rfl, posOf_some hpo, ?_, hkv, h.symm⟩
+              rw [Int.toNat_of_nonneg hk0]; exact hjk
+          · cases h
+  · rintro ⟨j, i, k, v, rfl, hji, hjk, hkv, rfl⟩
+    simp [dddmpNameOf, hv, hi, posOf_of_getElem? hnd hji, dddmpSuppName, ho, hs, hp, hjk, hkv]
+
+/-- `.varinfo 1` without any names: the line labelled with the level `k` (an entry of
+`.permids`) is a node of the variable the loader calls `permids[k]` -/
+theorem dddmpNameOf_varinfo1_nameless (hv : f.varinfo = some 1) {permids : List Int}
+    (hp : f.permids = some permids) (hnd : permids.Nodup)
+    (ho : f.orderedvarnames = none) (hs : f.suppvarnames = none) (info var : DddmpTok) :
+    dddmpNameOf f info = some var ↔
+      ∃ (k : Nat) (v : Int), info = .num (k : Int) ∧ (k : Int) ∈ permids ∧
+        permids[k]? = some v ∧ var = .num v := by
+  constructor
+  · intro h
+    cases info with
+    | str s => simp [dddmpNameOf, hv] at h
+    | num i =>
+      simp only [dddmpNameOf, hv, hp, Option.getD_some] at h
+      cases hpo : posOf i permids with
+      | none => rw [hpo] at h; cases h
+      | some j =>
+        rw [hpo] at h
+        have hjk := posOf_some hpo
+        simp only [Option.bind_some, dddmpSuppName, ho, hs, hp, Option.getD_some, hjk] at h
+        split at h
+        · next hk0 =>
+          cases hkv : permids[i.toNat]? with
+          | none => rw [hkv] at h; cases h
+          | some v =>
+            rw [hkv] at h
+            simp only [Option.map_some, Option.some.injEq] at h
+            refine ⟨i.toNat, v, ?_, ?_, hkv, h.symm⟩
+            · rw [Int.toNat_of_nonneg hk0]
+            · rw [Int.toNat_of_nonneg hk0]; exact List.mem_of_getElem? hjk
+        · cases h
+  · rintro ⟨k, v, rfl, hm, hkv, rfl⟩
+    obtain ⟨j, hjk⟩ := List.mem_iff_getElem?.mp hm
+    simp [dddmpNameOf, hv, hp, posOf_of_getElem? hnd hjk, dddmpSuppName, ho, hs, hjk, hkv]
 
 end Modes
 
@@ -630,6 +720,22 @@ theorem DddmpLoaded.of_supp {m : Mgr} (h : dddmpHeader f = .ok (i2p, levels, roo
     intro j var k hjv hjk
     obtain ⟨hm, -, -⟩ := levels_supp h ho hs hp hsnd hpnd hlen' hjk hjv
     exact hr var k hm
+
+/-- without any names: the loaded manager declares the Python `int`s `permids[0], permids[1], …`
+in that order (level `L` is the variable `permids[L]`) -/
+theorem DddmpLoaded.of_nameless {m : Mgr} (h : dddmpHeader f = .ok (i2p, levels, roots))
+    (hH : DddmpHeaderOK f) (hv3 : f.varinfo ≠ some 3) (ho : f.orderedvarnames = none)
+    (hs : f.suppvarnames = none) {permids : List Int} (hp : f.permids = some permids)
+    (hL : DddmpLoaded levels m) :
+    m.nvars = permids.length ∧ ∀ (L : Nat) (v : Int), permids[L]? = some v →
+      m.tbl.vars[(DddmpTok.num v).show]? = some L ∧ m.tbl.l2v[L]? = some (DddmpTok.num v).show := by
+  have hpnd : permids.Nodup := by have := hH.permids hv3; rw [hp] at this; exact this
+  have hond : (permids.map DddmpTok.num).Nodup :=
+    nodup_map_of_inj_on _ _ (fun a _ b _ h => by cases h; rfl) hpnd
+  rw [levels_nameless_eq h ho hs hp] at hL
+  obtain ⟨hn, hr⟩ := hL.ordered hond
+  refine ⟨by simpa using hn, fun L v hLv => hr L (.num v) ?_⟩
+  rw [List.getElem?_map, hLv]; rfl
 
 end OrderModes
 
